@@ -1,17 +1,17 @@
 SPECIFICATION Spec
 CONSTANTS
-  Models <- ModelsBC
-  Caps <- CapsAll
-  GMasks <- FewGroups
-  SMasks <- SiteMasks
-  JMasks <- NoSites
-  TMasks <- NoSites
-  AMasks <- NoSites
-  FlagSets <- NoFlags
+  Models <- ModelsD
+  Caps <- CapsD
+  GMasks <- EdgeMasks3
+  SMasks <- EdgeMasks3
+  JMasks <- EdgeMasks3
+  TMasks <- EdgeMasks3
+  AMasks <- EdgeMasks3
+  FlagSets <- AllFlags
   Statics <- OnlyTrue
-  CatMasks <- TwoCats
+  CatMasks <- FullCat
   QPos <- Q0
-  Status0 <- St01
+  Status0 <- St0
   InitMode = "all"
   Ops <- CallOps
   MaxOps = 1
